@@ -6,6 +6,10 @@ From FF Require Import Model.Tensor Spec.Kron Proofs.TensorIdx Proofs.TensorOrde
   Proofs.TensorUnfold.
 Import ListNotations.
 
+Section Generic.
+Context {T : Type} {EN : Entry T} {EL : EntryLaws T}.
+Local Notation arr := (garr T).
+
 (* ------------------------------------------------------------------ the transpose primitive on a permutation *)
 Lemma has_dup_false l : NoDup l -> has_dup l = false.
 Proof.
@@ -83,8 +87,11 @@ Qed.
 Lemma map_nth_perm (l : list nat) ax : Permutation ax (seq 0 (length l)) ->
   Permutation (map (fun k => nth k l 0) ax) l.
 Proof. intros H. rewrite (Permutation_map _ H). rewrite map_nth_seq. reflexivity. Qed.
-Lemma zprod_perm l l' : Permutation l l' -> zprod l = zprod l'.
-Proof. unfold zprod. induction 1; simpl; try lia. Qed.
+Lemma zprod_perm (l l' : list T) : Permutation l l' -> zprod l = zprod l'.
+Proof.
+  unfold zprod. induction 1; simpl; try congruence.
+  rewrite !emul_assoc. f_equal. apply emul_comm.
+Qed.
 
 Lemma Forall2_nth_intro {A B} (R : A -> B -> Prop) da db l : forall m,
   length l = length m -> (forall k, k < length l -> R (nth k l da) (nth k m db)) -> Forall2 R l m.
@@ -103,23 +110,23 @@ Proof.
 Qed.
 
 (* ------------------------------------------------------------------ the dimension table of a chain *)
-Lemma parse_dims_table r L : 1 <= r -> parse_dims_arg (dims_table r L) r = Ok tt.
+Lemma parse_dims_table r (L : list arr) : 1 <= r -> parse_dims_arg (dims_table r L) r = Ok tt.
 Proof.
   intros Hr. apply parse_dims_ok. unfold dims_table. split; [rewrite map_length, seq_length; auto|].
   destruct r as [|r']; [lia|]. cbn [seq map]. eexists. eexists. split; [reflexivity|].
   apply Forall_forall. intros x Hx. apply in_map_iff in Hx. destruct Hx as [a [<- _]].
   unfold axis_dims. rewrite !map_length. reflexivity.
 Qed.
-Lemma dims_table_hd r L : 1 <= r -> length (hd [] (dims_table r L)) = length L.
+Lemma dims_table_hd r (L : list arr) : 1 <= r -> length (hd [] (dims_table r L)) = length L.
 Proof.
   intros Hr. unfold dims_table. destruct r as [|r']; [lia|]. cbn [seq map hd]. unfold axis_dims. apply map_length.
 Qed.
-Lemma dims_table_rows r L : Forall (fun d => length d = length L) (dims_table r L).
+Lemma dims_table_rows r (L : list arr) : Forall (fun d => length d = length L) (dims_table r L).
 Proof.
   apply Forall_forall. intros d Hd. unfold dims_table in Hd. apply in_map_iff in Hd. destruct Hd as [a [<- _]].
   unfold axis_dims. apply map_length.
 Qed.
-Lemma dims_table_length r L : length (dims_table r L) = r.
+Lemma dims_table_length r (L : list arr) : length (dims_table r L) = r.
 Proof. unfold dims_table. rewrite map_length, seq_length. reflexivity. Qed.
 
 Lemma nth_concat_const {A} n (d : A) Bs : forall a o, Forall (fun b => length b = n) Bs -> a < length Bs -> o < n ->
@@ -151,16 +158,16 @@ Proof.
   rewrite (Permutation_map _ H). rewrite map_add_seq. rewrite Nat.add_0_r. reflexivity.
 Qed.
 
-Lemma axis_dims_permute a ord L : Forall (fun o => o < length L) ord ->
+Lemma axis_dims_permute a ord (L : list arr) : Forall (fun o => o < length L) ord ->
   axis_dims a (permute_list ord L) = map (fun o => nth o (axis_dims a L) 0) ord.
 Proof.
   intros H. unfold axis_dims, permute_list. rewrite map_map. apply map_ext_in. intros o Ho.
   rewrite Forall_forall in H. specialize (H o Ho).
-  transitivity (nth o (map (fun F => nth a (shp F) 0) L) (nth a (shp (mkArr [] [])) 0));
-    [rewrite (map_nth (fun F => nth a (shp F) 0)); reflexivity | apply nth_indep; rewrite map_length; auto].
+  transitivity (nth o (map (fun F : arr => nth a (shp F) 0) L) (nth a (shp (mkArr [] [] : arr)) 0));
+    [rewrite (map_nth (fun F : arr => nth a (shp F) 0)); reflexivity | apply nth_indep; rewrite map_length; auto].
 Qed.
 
-Lemma wf_permute_list r ord L : Forall (wf r) L -> Forall (fun o => o < length L) ord -> Forall (wf r) (permute_list ord L).
+Lemma wf_permute_list r ord (L : list arr) : Forall (wf r) L -> Forall (fun o => o < length L) ord -> Forall (wf r) (permute_list ord L).
 Proof.
   intros HL Ho. apply Forall_forall. intros x Hx. unfold permute_list in Hx. apply in_map_iff in Hx.
   destruct Hx as [o [<- Hin]]. rewrite Forall_forall in HL, Ho. apply HL. apply nth_In. auto.
@@ -304,3 +311,114 @@ Proof.
   specialize (Hrows' a ltac:(lia)). apply inb_length in Hrows'. rewrite Hrows'.
   unfold axis_dims. rewrite map_length. lia.
 Qed.
+
+(* ------------------------------------------------------------------ tensor_transpose of an ARBITRARY tensor *)
+(* The statement used by C06 (remap): for any tensor C whose trailing axes factor as the table Ds, the result
+   at the multi-index with digit blocks V' is C at the digit blocks src_blocks V', i.e. source digit k of
+   every axis is target digit (position of k in order). *)
+Definition permute_dims (ord : list nat) (Ds : list (list nat)) : list (list nat) :=
+  map (fun d => map (fun o => nth o d 0) ord) Ds.
+Definition src_blocks (n : nat) (ord : list nat) (V' : list (list nat)) : list (list nat) :=
+  map (fun v' => map (fun k => lookup ord v' k) (seq 0 n)) V'.
+
+Lemma map_nth_seq_list {A} (d : A) (l : list A) : map (fun a => nth a l d) (seq 0 (length l)) = l.
+Proof. induction l as [|x l IH]; simpl; auto. f_equal. rewrite <- seq_shift, map_map. exact IH. Qed.
+
+Lemma map_via_nth {A B} (f : A -> B) (d : A) (l : list A) :
+  map (fun a => f (nth a l d)) (seq 0 (length l)) = map f l.
+Proof. rewrite <- (map_map (fun a => nth a l d) f), map_nth_seq_list. reflexivity. Qed.
+
+Theorem transpose_index_spec r n (C : arr) (Ds : list (list nat)) ord :
+  1 <= r -> 1 <= n -> length Ds = r -> Forall (fun d => length d = n) Ds -> wf r C -> shp C = map prodn Ds ->
+  Permutation ord (seq 0 n) ->
+  exists R, tensor_transpose r C (map Z.of_nat ord) Ds = Ok R /\ shp R = shp C /\ length (dat R) = prodn (shp C) /\
+    map prodn (permute_dims ord Ds) = map prodn Ds /\
+    forall V', Forall2 inb V' (permute_dims ord Ds) ->
+      aget R (map2 ravel (permute_dims ord Ds) V') = aget C (map2 ravel Ds (src_blocks n ord V')).
+Proof.
+  intros Hr Hn HlD Hrows [HC1 HC2] Hsh Hp.
+  assert (Hord : Forall (fun o => o < n) ord).
+  { apply Forall_forall. intros o Ho. apply (Permutation_in _ Hp) in Ho. apply in_seq in Ho. lia. }
+  assert (Hlo : length ord = n) by (rewrite (Permutation_length Hp), seq_length; reflexivity).
+  assert (Hndo : NoDup ord) by (apply (Permutation_NoDup (Permutation_sym Hp)); apply seq_NoDup).
+  set (Ds' := permute_dims ord Ds).
+  assert (HlD' : length Ds' = r) by (unfold Ds', permute_dims; rewrite map_length; auto).
+  assert (Hparse : parse_dims_arg Ds r = Ok tt).
+  { apply parse_dims_ok. split; auto. destruct Ds as [|d0 Dt]; [simpl in HlD; lia|].
+    exists d0, Dt. split; auto. inversion Hrows as [|? ? H0 Ht]; subst.
+    eapply Forall_impl; [|exact Ht]. simpl. intros x Hx. lia. }
+  assert (Hhd : length (hd [] Ds) = n).
+  { destruct Ds as [|d0 Dt]; [simpl in HlD; lia|]. inversion Hrows; auto. }
+  unfold tensor_transpose. rewrite Hparse. cbn [bind]. rewrite Hhd.
+  replace (r =? 0) with false by (symmetry; apply Nat.eqb_neq; lia).
+  assert (Hlead : lead r (shp C) = []) by (unfold lead; rewrite HC1, Nat.sub_diag; reflexivity).
+  rewrite Hlead. cbn [app length].
+  unfold reshape at 1. rewrite prodn_concat, <- Hsh, <- HC2, Nat.eqb_refl. cbn [bind].
+  rewrite transpose_axes_nat.
+  set (fine := concat Ds).
+  assert (Hlf : length fine = r * n).
+  { unfold fine. rewrite (concat_length_const n) by auto. lia. }
+  set (ax := transpose_ax r n ord).
+  assert (Haxp : Permutation ax (seq 0 (length fine))) by (rewrite Hlf; apply transpose_ax_perm; auto).
+  assert (Haxne : ax <> []).
+  { intros E. apply Permutation_length in Haxp. rewrite E, seq_length, Hlf in Haxp. simpl in Haxp. nia. }
+  rewrite (transpose_perm (mkArr fine (dat C)) ax Haxne Haxp). cbn [bind shp].
+  assert (Hfine' : map (fun k => nth k fine 0) ax = concat Ds').
+  { unfold ax, transpose_ax, Ds', permute_dims. rewrite map_flat_map.
+    rewrite <- (map_via_nth (fun d => map (fun o => nth o d 0) ord) [] Ds), HlD, <- flat_map_concat_map.
+    apply flat_map_ext_in. intros a Ha. apply in_seq in Ha.
+    rewrite map_map. apply map_ext_in. intros o Ho.
+    rewrite Forall_forall in Hord. specialize (Hord o Ho).
+    unfold fine. apply (nth_concat_const n); auto; lia. }
+  rewrite Hfine'.
+  assert (Hprods : map prodn Ds' = map prodn Ds).
+  { unfold Ds', permute_dims. rewrite map_map. apply map_ext_in. intros d Hd.
+    apply prodn_perm. apply map_nth_perm. rewrite Forall_forall in Hrows. rewrite (Hrows d Hd). exact Hp. }
+  unfold reshape, tabulate. cbn [dat].
+  rewrite map_length, indices_length, prodn_concat, Hprods, <- Hsh, Nat.eqb_refl.
+  eexists. split; [reflexivity|]. cbn [shp dat]. split; [reflexivity|]. split.
+  { rewrite map_length, indices_length, prodn_concat, Hprods, <- Hsh. first [reflexivity | exact HC2 | symmetry; exact HC2]. }
+  split; [first [exact Hprods | reflexivity]|].
+  intros V' HV'.
+  assert (HV'len : Forall2 (fun v d : list nat => length v = length d) V' Ds').
+  { clear -HV'. induction HV'; constructor; auto. eapply inb_length; eauto. }
+  assert (HlV' : length V' = r) by (apply Forall2_len in HV'; lia).
+  assert (Hrows' : forall a, a < r -> length (nth a V' []) = n).
+  { intros a Ha. pose proof (Forall2_nth (fun v d : list nat => length v = length d) V' Ds' [] [] a HV'len ltac:(lia)) as Hq.
+    rewrite Hq. unfold Ds', permute_dims.
+    rewrite (nth_indep _ [] ((fun d => map (fun o => nth o d 0) ord) [])) by (rewrite map_length; lia).
+    rewrite (map_nth (fun d => map (fun o => nth o d 0) ord)). rewrite map_length. auto. }
+  (* left-hand side: entry of the tabulated array *)
+  unfold aget at 1. cbn [shp dat]. rewrite Hsh, <- Hprods.
+  rewrite <- (ravel_concat Ds' V') by auto.
+  assert (Hin' : inb (concat V') (concat Ds')) by (apply inb_concat; auto).
+  pose proof (aget_tabulate (concat Ds') (fun ni => aget (mkArr fine (dat C)) (map (fun k => lookup ax ni k) (seq 0 (length fine)))) (concat V') Hin') as Hat.
+  unfold aget at 1, tabulate in Hat. cbn [shp dat] in Hat. rewrite Hat. clear Hat.
+  set (V := src_blocks n ord V').
+  assert (Hgather : map (fun k => lookup ax (concat V') k) (seq 0 (length fine)) = concat V).
+  { rewrite Hlf, <- flat_map_seq_blocks, map_flat_map. unfold V, src_blocks.
+    rewrite <- (map_via_nth (fun v' => map (fun k => lookup ord v' k) (seq 0 n)) [] V'), HlV', <- flat_map_concat_map.
+    apply flat_map_ext_in. intros a Ha. apply in_seq in Ha.
+    replace (seq (a * n) n) with (map (fun k => a * n + k) (seq 0 n)) by (rewrite map_add_seq; f_equal; lia).
+    rewrite map_map. apply map_ext_in. intros k Hk. apply in_seq in Hk.
+    unfold ax, transpose_ax. rewrite flat_map_concat_map.
+    rewrite (lookup_block _ V' a).
+    - rewrite nth_map_seq by lia. apply lookup_map_shift.
+    - rewrite <- flat_map_concat_map. fold (transpose_ax r n ord).
+      apply (Permutation_NoDup (Permutation_sym (transpose_ax_perm r n ord Hp))). apply seq_NoDup.
+    - apply Forall2_nth_intro with (da := []) (db := []).
+      + rewrite map_length, seq_length. lia.
+      + intros k0 Hk0. rewrite map_length, seq_length in Hk0. rewrite nth_map_seq by lia. rewrite map_length.
+        rewrite Hrows' by lia. lia.
+    - rewrite nth_map_seq by lia. apply in_map. apply (Permutation_in _ (Permutation_sym Hp)). apply in_seq. lia. }
+  rewrite Hgather.
+  unfold aget. cbn [shp dat]. rewrite Hsh. f_equal. unfold fine. apply ravel_concat.
+  unfold V, src_blocks.
+  apply Forall2_nth_intro with (da := []) (db := []).
+  - rewrite map_length. lia.
+  - intros a Ha. rewrite map_length in Ha.
+    rewrite (nth_indep _ [] ((fun v' => map (fun k => lookup ord v' k) (seq 0 n)) [])) by (rewrite map_length; lia).
+    rewrite (map_nth (fun v' => map (fun k => lookup ord v' k) (seq 0 n))). rewrite map_length, seq_length.
+    rewrite Forall_forall in Hrows. symmetry. apply Hrows. apply nth_In. lia.
+Qed.
+End Generic.
